@@ -1270,11 +1270,13 @@ impl Server {
         let mut query = String::from("");
 
         for (key, value) in parameter_diff {
-            // Embedded single quotes must be doubled inside the string literal.
+            // An E'' literal reads the same whatever standard_conforming_strings is on this
+            // connection (it may still hold the previous client's setting): backslashes and
+            // embedded single quotes must be doubled inside it.
             query.push_str(&format!(
-                "SET {} TO '{}';",
+                "SET {} TO E'{}';",
                 key,
-                value.replace('\'', "''")
+                value.replace('\\', "\\\\").replace('\'', "''")
             ));
         }
 
